@@ -182,7 +182,90 @@ def check_unknown(case):
     return out
 
 
+def check_big_from_bytes(n):
+    """from_bytes is not bound by the file reader's limit: a payload whose length needs a four-byte quantity."""
+    text = 'q' * n
+    try:
+        msg = mido.MetaMessage('text', text=text)
+        b = msg.bytes()
+        want_head = [0xFF, 0x01] + M.vlq(n)
+        if b[:len(want_head)] != want_head or len(b) != len(want_head) + n:
+            return [fail('layout', f'text of {n} bytes: header {b[:8]}, expected {want_head}', type='text')]
+        for cont in (list, bytes):
+            back = mido.MetaMessage.from_bytes(cont(b))
+            if back.type != 'text' or back.text != text:
+                return [fail('from_bytes-differs', f'text of {n} bytes comes back as {back.type} with {len(back.text)} chars',
+                             type='text')]
+    except Exception as exc:  # noqa: BLE001
+        return [fail('from_bytes-raises', f'text of {n} bytes: {exc!r}', exc=exc_sig(exc), type='text')]
+    return []
+
+
+def check_custom_spec():
+    """The documented extension hook (docs/meta_message_types.rst, "Implementing New or Custom Meta Messages"): a spec
+    registered with add_meta_spec encodes, decodes from bytes and loads from a track like a built-in one. The
+    registration is undone afterwards."""
+    import mido.midifiles.meta as meta_mod
+    out = []
+
+    class MetaSpec_light_color(meta_mod.MetaSpec):
+        type_byte = 0x6a
+        attributes = ['r', 'g', 'b']
+        defaults = [0, 0, 0]
+
+        def decode(self, message, data):
+            (message.r, message.g, message.b) = data
+
+        def encode(self, message):
+            return [message.r, message.g, message.b]
+
+        def check(self, name, value):
+            if not isinstance(value, int):
+                raise TypeError(f'{name} must be an integer')
+            if not 0 <= value <= 255:
+                raise ValueError(f'{name} must be in range 0..255')
+    tables = [(name, dict(obj)) for name, obj in vars(meta_mod).items()
+              if isinstance(obj, dict) and name.startswith('_META')]
+    try:
+        meta_mod.add_meta_spec(MetaSpec_light_color)
+        m = mido.MetaMessage('light_color', r=1, g=200, b=255, time=7)
+        b = m.bytes()
+        if b != [0xFF, 0x6a, 3, 1, 200, 255]:
+            out.append(fail('layout', f'custom meta bytes {b}', type='custom'))
+        back = mido.MetaMessage.from_bytes(b)
+        if type(back) is not mido.MetaMessage or back.type != 'light_color' or (back.r, back.g, back.b) != (1, 200, 255):
+            out.append(fail('from_bytes-differs', f'custom meta from_bytes -> {back!r}', type='custom'))
+        raw = bytes([0x4d, 0x54, 0x68, 0x64, 0, 0, 0, 6, 0, 1, 0, 1, 1, 0xe0, 0x4d, 0x54, 0x72, 0x6b, 0, 0, 0, 11,
+                     7, 0xFF, 0x6a, 3, 1, 200, 255, 0, 0xFF, 0x2F, 0])
+        for clip in (False, True):
+            loaded = mido.MidiFile(file=io.BytesIO(raw), clip=clip).tracks[0][0]
+            if type(loaded) is not mido.MetaMessage or loaded.type != 'light_color' or loaded.time != 7 or not (loaded == m):
+                out.append(fail('track-differs', f'custom meta read from a track (clip={clip}) -> {loaded!r}', type='custom'))
+        try:
+            mido.MetaMessage('light_color', r=256)
+            out.append(fail('accepts-invalid', 'custom meta check() not applied', type='custom'))
+        except (ValueError, TypeError):
+            pass
+    except Exception as exc:  # noqa: BLE001
+        out.append(fail('raises', f'custom meta spec: {exc!r}', exc=exc_sig(exc), type='custom'))
+    finally:
+        for name, before in tables:
+            cur = getattr(meta_mod, name)
+            for k in list(cur):
+                if k not in before:
+                    del cur[k]
+        for name, obj in list(vars(meta_mod).items()):
+            if isinstance(obj, dict) and name.startswith('_') and not any(name == t for t, _ in tables):
+                for k in (0x6a, 'light_color'):
+                    obj.pop(k, None)
+    return out
+
+
 def run_case(case):
+    if case.get('kind') == 'big-from-bytes':
+        return check_big_from_bytes(case['n'])
+    if case.get('kind') == 'custom-spec':
+        return check_custom_spec()
     if case.get('kind') == 'reader-limit':
         return check_reader_limit(case['n'])
     if case.get('kind') == 'unknown':
@@ -211,7 +294,7 @@ def check_reader_limit(n):
 
 
 def nontrivial(case):
-    if case.get('kind') == 'reader-limit':
+    if case.get('kind') in ('reader-limit', 'big-from-bytes', 'custom-spec'):
         return True
     if case.get('kind') == 'unknown':
         return len(case['data']) > 0
@@ -370,6 +453,8 @@ def main(ctx):
                                      'field limits: complete; tempo/text/data: boundary values + sampled')
     n = 1600 if ctx.tier == 'quick' else 48000
     ctx.pmap('hyp_shard', [(k, n // 8) for k in range(8)])
+    ctx.check({'kind': 'custom-spec'}, classes=('custom-meta-spec',))
+    ctx.check({'kind': 'big-from-bytes', 'n': 2 ** 21 + 1}, classes=('volume',), sample=False)
     limits = [1000000] if ctx.tier == 'quick' else [999999, 1000000, 1000001]
     for ln in limits:
         ctx.check({'kind': 'reader-limit', 'n': ln}, sample=False)
